@@ -110,6 +110,11 @@ class CountingDist:
         return FAMILIES[self.fam]["tfd"](*args, **kwargs)
 
 
+def _bernoulli(probs):
+    # float-valued Bernoulli: the drawn value can feed real-valued parameters of children
+    return tfd.Bernoulli(probs=probs, dtype=jnp.float32)
+
+
 FAMILIES = {
     "normal": {"tfd": tfd.Normal, "params": {"loc": "real", "scale": "pos"}, "support": "real"},
     "gamma": {"tfd": tfd.Gamma, "params": {"concentration": "pos", "rate": "pos"}, "support": "pos"},
@@ -118,7 +123,7 @@ FAMILIES = {
     "lognormal": {"tfd": tfd.LogNormal, "params": {"loc": "real", "scale": "pos"}, "support": "pos"},
     "halfnormal": {"tfd": tfd.HalfNormal, "params": {"scale": "pos"}, "support": "pos"},
     "invgamma": {"tfd": tfd.InverseGamma, "params": {"concentration": "pos", "scale": "pos"}, "support": "pos"},
-    "bernoulli": {"tfd": tfd.Bernoulli, "params": {"probs": "unit"}, "support": "binary"},
+    "bernoulli": {"tfd": _bernoulli, "params": {"probs": "unit"}, "support": "binary"},
     "poisson": {"tfd": tfd.Poisson, "params": {"rate": "pos"}, "support": "count"},
 }
 
@@ -165,7 +170,12 @@ def gen_spec(rng, n_items=(4, 14), p_dist=0.5, p_transient=0.3, p_vec=0.35, seed
 
     def pick_ref(want: str, shape_ok=None, prefer_var=False, below=None):
         cands = [i for i, it in enumerate(items) if it.get("vk") and compatible(it["vk"], want)
-                 and it["k"] in ("value", "var", "calc", "ident") and (below is None or i < below)]
+                 and it["k"] in ("value", "var", "calc", "ident") and (below is None or i < below)
+                 # positive / unit-interval parameters never read a *distributed* variable directly
+                 # (only through bounded primitives): simulated hierarchies stay in ranges where
+                 # tfp's rejection samplers terminate
+                 and not (want in ("pos", "unit") and it["k"] == "var" and it.get("dist"))
+                 and not (want in ("pos", "unit") and it["k"] == "ident")]
         if cands and rng.random() < 0.85:
             i = rng.choice(cands[-6:]) if rng.random() < 0.7 else rng.choice(cands)
             it = items[i]
@@ -192,6 +202,9 @@ def gen_spec(rng, n_items=(4, 14), p_dist=0.5, p_transient=0.3, p_vec=0.35, seed
                 dist = {"fam": fam, "args": args, "transient": rng.random() < p_transient * 0.6,
                         "per_obs": rng.random() < 0.7}
                 vk = F["support"]
+                # the value must cover the batch shape of its distribution
+                if any("i" in r_ and items[r_["i"]].get("shape") == [3] for r_ in args.values()):
+                    shape = [3]
             else:
                 vk = rng.choice(["real", "real", "pos", "unit"])
             role = None
